@@ -81,7 +81,12 @@ def load(R):
 
     R.spec("FRAME", [], "calling_frame()")
     R.spec("CALLER_REF", [], "calling_frame().memento.invocation_metadata.fn_reference_with_args")
-    R.spec("CALLER", [], "CALLER_REF().fn_reference.memento_fn")
+    R.attr("_clone_of", TObj())
+    R.spec("FRAME_FN", [], "CALLER_REF().fn_reference.memento_fn")
+    # from the property ("a memento function with an automatic version"): the function object on the stack may be a modifier clone (force_local(), partial(),
+    # with_context_args() ...), which carries the version of its original as an explicit one -- whether the version is automatic, and what may be called,
+    # is decided by the function the clone was made from
+    R.spec("CALLER", [], "FRAME_FN()._clone_of if (has_attr(FRAME_FN(), '_clone_of') and FRAME_FN()._clone_of is not None and truthy(FRAME_FN()._clone_of)) else FRAME_FN()")
     # the call is outside the caller's declared / detected closure and the callee was not passed to the caller as an argument
     R.spec("REFUSED", ["f"],
            "calling_frame() is not None and CALLER().explicit_version is None and CALLER().qualified_name_without_version != f.qualified_name_without_version "
@@ -89,7 +94,7 @@ def load(R):
            "and not in_fnref_names(CALLER_REF().args, CALLER_REF().kwargs, CALLER_REF().context_args, qname_of(f))")
     M = "memento:MementoFunction."
     R.contract(M + "_validate_dependency", prop="C14", types={"self": MF}, ghost_params={"validated": TBool},
-               requires=["implies(calling_frame() is not None, CALLER() is not None)"],
+               requires=["implies(calling_frame() is not None, FRAME_FN() is not None and CALLER() is not None)"],
                ensures=["not REFUSED(self)", "[effect] ghost('validated')"],
                raises={"UndeclaredDependencyError": ["REFUSED(self)"]},
                modifies=["ghost:validated"])
@@ -107,7 +112,7 @@ def load(R):
                raises={"Exception+": []}, ensures=["ghost('dispatched')"], modifies=["ghost:dispatched"])
     GH = {"validated": TBool, "dispatched": TBool}
     for name, types in (("call", {"self": MF, "args": TObj(), "kwargs": TObj()}), ("call_batch", {"self": MF, "kwargs_list": TObj(), "raise_first_exception": TBool})):
-        R.contract(M + name, prop="C14", types=types, returns=TObj(), ghost_params=GH, requires=["not ghost('validated')", "not ghost('dispatched')", "implies(calling_frame() is not None, CALLER() is not None)"],
+        R.contract(M + name, prop="C14", types=types, returns=TObj(), ghost_params=GH, requires=["not ghost('validated')", "not ghost('dispatched')", "implies(calling_frame() is not None, FRAME_FN() is not None and CALLER() is not None)"],
                    ensures=["ghost('validated') and ghost('dispatched')"],
                    raises={"UndeclaredDependencyError": ["not ghost('dispatched')"], "Exception+": []},
                    modifies=["ghost:validated", "ghost:dispatched"])
